@@ -272,7 +272,7 @@ class C16(World):
         "disk: per-run scratch directory under /dev/shm; read faults by wrapping pathlib.Path.open, pandas.read_csv, pandas.read_excel, pandas.ExcelFile; write faults by wrapping pandas.ExcelWriter",
         "wall clock read by OpenPinch.utils.export (simulated clock object)",
     ]
-    fault_kinds = ["read_error", "torn_file", "lost_rows", "write_error", "missing_dir", "clock_jump", "abort"]
+    fault_kinds = ["read_error", "torn_file", "lost_rows", "write_error", "missing_dir", "clock_jump", "abort", "same_mtime"]
     rule = (
         "each run = one generated history (3-20 operations) over 1-3 logical problems and 1-3 wrapper objects: load(wrapper, problem, channel) "
         "for channel in dict/model/value-with-unit dict/from_json/JSON/JSON with units/CSV directory/CSV pair/template workbook, target, "
@@ -365,6 +365,7 @@ class C16(World):
             cand = [("load", 5.0), ("target", 4.0), ("svc", 1.5), ("export", 1.5 * swarm["w_export"]), ("ctor_run", 0.6), ("alloc", 0.6), ("clock", 0.5), ("xlsb", 0.12)]
             op = ops.choices([k for k, _ in cand], [w for _, w in cand])[0]
             c = sched.randrange(swarm["clients"])
+            follow_with_target = False
             fault = None
             if args.random() < swarm["p_fault"]:
                 fault = True
@@ -374,6 +375,17 @@ class C16(World):
                 st = dict(op="load", w=args.randrange(nw), p=p, ch=ch, stem=args.choice(STEMS))
                 if swarm["same_path"] and args.random() < 0.8:
                     st["same_path"] = True
+                    if args.random() < 0.35:
+                        # the producer rewrites the file with ONE digit changed (same length) and the file system keeps the old
+                        # modification time (coarse timestamps / a restoring copy tool): size and mtime are unchanged, content is not.
+                        # Emitted as a little scenario: load, target, rewrite+load again on the same wrapper, target.
+                        first = dict(st, client=c)
+                        first.pop("fault", None)
+                        steps.append(first)
+                        steps.append(dict(op="target", w=st["w"], twice=False, client=c))
+                        st = dict(st, tweak=True, fault="same_mtime")
+                        st.pop("frac", None)
+                        follow_with_target = True
                 st["style"] = dict(units=args.random() < 0.8, ints=args.random() < 0.4, bom=args.random() < 0.25, extra=args.random() < 0.3)
                 if args.random() < 0.25:
                     st["stem"] = args.choice(HOSTILE_STEMS)  # used only when the problem itself is hostile (JSON channel)
@@ -412,6 +424,8 @@ class C16(World):
                 st = dict(op="xlsb", i=args.randrange(64))
             st["client"] = c
             steps.append(st)
+            if follow_with_target:
+                steps.append(dict(op="target", w=st["w"], twice=False, client=c))
         return dict(swarm=swarm, problems=probs, steps=steps)
 
     def nontrivial(self, trace):
@@ -493,16 +507,24 @@ class C16(World):
         # ---- reference results (plain dict through the service) cached per (problem variant, name)
         ref_cache = {}
 
-        def variant(p, keep=None):
-            d = materialize(probs[p]["data"])
+        def tweaked(data):
+            d = copy.deepcopy(data)
+            hf = d["streams"][0]["heat_flow"]
+            txt = repr(hf)
+            lead = txt[0]
+            d["streams"][0]["heat_flow"] = float(("7" if lead != "7" else "3") + txt[1:]) if lead.isdigit() and lead != "0" else hf
+            return d
+
+        def variant(p, keep=None, tweak=False):
+            d = materialize(tweaked(probs[p]["data"]) if tweak else probs[p]["data"])
             if keep is not None:
                 d["streams"] = d["streams"][:keep]
             return d
 
-        def reference(p, name, keep=None, no_options=False):
-            k = (p, name, keep, no_options)
+        def reference(p, name, keep=None, no_options=False, tweak=False):
+            k = (p, name, keep, no_options, tweak)
             if k not in ref_cache:
-                d = variant(p, keep)
+                d = variant(p, keep, tweak)
                 if no_options:
                     d.pop("options", None)
                 kind, val = run_plain(lambda: pinch_analysis_service(d, project_name=name))
@@ -511,7 +533,7 @@ class C16(World):
 
         n_w = trace.get("swarm", {}).get("n_wrappers", 1)
         wrappers = [PinchProblem() for _ in range(n_w)]
-        model = [dict(loaded=None, keep=None, no_options=False, cached=False, last=None, ch=None, failed_load=False, exact=False) for _ in range(n_w)]
+        model = [dict(loaded=None, keep=None, no_options=False, cached=False, last=None, ch=None, failed_load=False, exact=False, tweak=False) for _ in range(n_w)]
         prev_op = None
         fault_in_force = "none"
 
@@ -519,7 +541,7 @@ class C16(World):
             m = model[w_i]
             p = m["loaded"]
             name = getattr(res, "name", None)
-            kind, ref, ref_text = reference(p, name, m["keep"], m["no_options"])
+            kind, ref, ref_text = reference(p, name, m["keep"], m["no_options"], m.get("tweak", False))
             if kind != "ok":
                 V("channel_eq", f"{m['ch']}|ref_raises|{fault_in_force}", step, f"wrapper returned a result for problem {p} but the plain-dict service raises {ref}")
                 return
@@ -570,7 +592,15 @@ class C16(World):
                     no_options = ch in ("csv_dir", "csv_tuple") and prob["options"]
                     if flt == "lost_rows" and ch in ("csv_dir", "csv_tuple", "xlsx") and len(prob["data"]["streams"]) > 1:
                         keep = 1 + (st["keep"] - 1) % (len(prob["data"]["streams"]) - 1)
-                    data = prob["data"]
+                    tweak = bool(st.get("tweak")) and ch in FILE_CHANNELS
+                    data = tweaked(prob["data"]) if tweak else prob["data"]
+                    old_stat = None
+                    if flt == "same_mtime":
+                        flt = None
+                        for cand in (os.path.join(d, stem + ".json"), os.path.join(d, stem + ".xlsx"), os.path.join(d, stem, "streams.csv"), os.path.join(d, "s_" + stem + ".csv")):
+                            if os.path.exists(cand):
+                                old_stat = old_stat or {}
+                                old_stat[cand] = os.stat(cand)
                     src = None
                     exact = False
                     if ch == "json" or ch == "json_vu":
@@ -589,6 +619,13 @@ class C16(World):
                         probe("file_without_units_row")
                     if has_blanks(data) and ch in ("csv_dir", "csv_tuple", "xlsx"):
                         probe("file_with_blank_cells")
+                    if old_stat:
+                        for cand, stt in old_stat.items():
+                            if os.path.exists(cand):
+                                os.utime(cand, ns=(stt.st_atime_ns, stt.st_mtime_ns))
+                                if os.path.getsize(cand) == stt.st_size:
+                                    probe("file_rewritten_same_size_same_mtime")
+                        fault_fired("same_mtime")
                     if flt == "torn_file" and ch in ("json", "json_vu", "xlsx"):
                         truncate(src, st["frac"])
                         fault_fired("torn_file")
@@ -632,7 +669,7 @@ class C16(World):
                             V("load_must_fail", f"{ch}|{flt}", step, f"load through {ch} succeeded although the file was {flt}")
                         if ch in ("dict", "from_json"):
                             model[w_i] = m = dict(loaded=None, keep=None, no_options=False, cached=False, last=None, ch=None, failed_load=False, exact=False)
-                        m.update(loaded=p, keep=keep, no_options=no_options, cached=False, ch=ch, failed_load=False, exact=ch in ("dict", "model", "vu_dict", "from_json", "json", "json_vu"))
+                        m.update(loaded=p, keep=keep, no_options=no_options, tweak=tweak, cached=False, ch=ch, failed_load=False, exact=ch in ("dict", "model", "vu_dict", "from_json", "json", "json_vu"))
                         if m["last"] is not None:
                             probe("reload_on_used_wrapper")
                         outcome = "ok"
